@@ -258,6 +258,29 @@ def quantile_family(ctx):
     ctx.sample(sub, {"shapes": shapes, "scales": scales, "sizes": sizes, "orders": ["asc", "desc", "inter"], "zero_share": [0, 0.2, 0.9], "ties": [False, True]})
 
 
+def attr_histories(ctx):
+    """spi() on one long-lived object whose nodata attribute is edited in place between calls."""
+    import pandas as pd
+    import xarray as xr
+    from .. import histories
+    sub = "attr_histories"
+    n = 6
+    time = pd.date_range("2000-01-01", periods=n, freq="10D")
+    rows = [[3, 1, 4, 1, 5, 9], [0, 7, 0, 7, 2, 30], [-9999, 2, 7, -9999, 30, 1], [7, 7, 2, 9, 7, 1], [0, 0, 3, 8, 0, 2], [-9999] * n, [0] * n, [7] * n]
+    for dtype in ("int16", "float32"):
+        data = np.array(rows).astype(dtype).reshape(2, 4, n)
+
+        def make():
+            return xr.DataArray(data.copy(), dims=("y", "x", "time"), coords={"time": time})
+
+        def op(da):
+            return da.hdc.algo.spi().values.copy()
+
+        h = histories.explore(make, "nodata", [histories.ABSENT, -9999, 0, 7], op, lambda a, b: np.array_equal(a, b), 3, ctx, sub, f"spi[{dtype}]")
+        ctx.note_add("attr_histories", h)
+    ctx.sample(sub, {"attr": "nodata", "values": ["<absent>", -9999, 0, 7], "depth": 3, "pixels": rows})
+
+
 def run(ctx):
     st = _st()
     z = np.array([[[1, 2, 7, 30]]])
@@ -272,6 +295,7 @@ def run(ctx):
     ctx.note("max_len", maxn)
     accessor(ctx, letters)
     quantile_family(ctx)
+    attr_histories(ctx)
 
 
 def replay(sub, case, p):
@@ -285,6 +309,8 @@ def replay(sub, case, p):
             entry = "yxt_" + {"int16": "i16", "float64": "f64", "float32": "f64"}[entry[4:-1]]
         out = run_entry(entry, x, i, j)
         compare(out, idx, letters, i, j, case["entry"], p, sub, rel_f32=case["entry"].endswith("f32") or "float32" in case["entry"])
+    elif case["kind"] == "attr_history":
+        attr_histories(p)
     elif case["kind"] == "qg":
         p.thorough = lambda: False
         quantile_family(p)
